@@ -55,3 +55,7 @@ impl hkdf::KeyType for IvLen {
         NONCE_LEN
     }
 }
+
+#[cfg(all(aws_s2n_quic_verif, any(test, kani)))]
+#[path = "/verif/harness/crypto/iv.rs"]
+mod verif;
